@@ -266,9 +266,15 @@ def check(ctx: Ctx) -> list[RuleResult]:
             r4.fail(f"{g2.short}:dequeue-unguarded", g2.loc(n), "the next command is dequeued while the current future may still be pending (two commands in flight)")
     r4.instances += 1
     r4.nontrivial += 1
-    skip = [x for x in own_nodes(check_buf.node) if isinstance(x, ast.If) and norm(x.test) == "self._fut.done()" and any(isinstance(b, ast.Continue) for b in x.body) and any("task_done" in norm(b) for b in x.body)]
-    if skip:
-        r4.ok({"skips_finished_entries": norm(skip[0])[:70]})
+    # entries whose caller already gave up are skipped: every way out of the dequeue loop towards the transmission is taken only
+    # when the dequeued future is known not to be done, and task_done() is called for the skipped ones
+    from .common import known_at
+
+    loops = [x for x in own_nodes(check_buf.node) if isinstance(x, ast.While) and any(isinstance(c, ast.Call) and isinstance(c.func, ast.Attribute) and c.func.attr in ("get_nowait", "get") for c in ast.walk(x))]
+    breaks = [b for lp in loops for b in ast.walk(lp) if isinstance(b, ast.Break)]
+    has_task_done = any(isinstance(c, ast.Call) and isinstance(c.func, ast.Attribute) and c.func.attr == "task_done" for lp in loops for c in ast.walk(lp))
+    if loops and breaks and has_task_done and all(known_at(b, "not self._fut.done()") for b in breaks):
+        r4.ok({"skips_finished_entries": "the dequeue loop is only left with a future that is not done; task_done() for the others"})
     else:
         r4.fail(f"{check_buf.short}:skip-finished", check_buf.loc(), "entries whose caller already gave up (future done) are no longer skipped: a command could be transmitted after its caller was answered")
     out.append(r4)
@@ -333,14 +339,13 @@ def _is_budget_test(t: ast.AST) -> bool:
 
 def _no_pending_edges(t: ast.AST) -> list[str]:
     """Out-edges of a test on which `self._fut is None or self._fut.done()` is known."""
+    from .common import edge_implies
+
     txt = norm(t)
-    if isinstance(t, ast.BoolOp) and isinstance(t.op, ast.And) and {norm(v) for v in t.values} == {"self._fut is not None", "not self._fut.done()"}:
-        return ["false"]
-    if isinstance(t, ast.BoolOp) and isinstance(t.op, ast.Or) and {norm(v) for v in t.values} == {"self._fut is None", "self._fut.done()"}:
-        return ["true"]
     if txt == "self.is_sending":
         return ["false"]
-    return []
+    goal = ast.parse("self._fut is None or self._fut.done()", mode="eval").body
+    return [lab for lab, val in (("true", True), ("false", False)) if isinstance(t, ast.expr) and edge_implies(t, val, goal)]
 
 
 _E, _R = 1009.0, 7919.0  # stand-ins for echo_timeout / reply_timeout (distinct primes, so products identify their factors)
